@@ -47,6 +47,8 @@ type Ctx struct {
 	wsCache      *WS
 	optional     map[string]bool
 	closedFields map[*types.Var]bool
+	bufEntry     *ssa.Function
+	bufEntryDone bool
 }
 
 func newCtx(p *Prog, r *Roles, property string) *Ctx {
@@ -103,6 +105,10 @@ func (c *Ctx) need(rule string, what string, present bool) bool {
 
 // finish applies vacuity floors: a declared rule with zero obligations is undecided.
 func (c *Ctx) finish() {
+	if ipExhausted > 0 {
+		c.ruleDoc["engine"] = "no path search was cut off by its step budget"
+		c.und("engine", "interprocedural search", "-", fmt.Sprintf("%d path search(es) exhausted their step budget: their answers cannot be relied on", ipExhausted))
+	}
 	ids := make([]string, 0, len(c.ruleDoc))
 	for id := range c.ruleDoc {
 		ids = append(ids, id)
